@@ -1,3 +1,4 @@
+@pos.deleter
 def spec(self):
     self._pos = nn.ParameterList()
     self._pos_cache.cache_clear()
